@@ -1,4 +1,5 @@
 import SgVerif.C37.EngineLemmas2
+import SgVerif.C37.Fifo
 /-
 C37 — Trace replay reproduces the online simulated time.  Property theorems (thin model: the TI trace grammar).
 
@@ -290,6 +291,41 @@ theorem replay_issues_same_calls (me : Int) (n dflt : Nat) (hn : 2 ≤ n) (prog 
   exact e
 
 def issuesOf (x : Option (List Issue × RState)) : Option (List Issue) := x.map (·.1)
+
+/-- **replay_issues_same_calls_fifo**: the class `WfProg` excludes but the property contains — a rank may hold any number
+    of requests with the SAME (sender, receiver, tag) at once (Isend / Irecv with repeating keys, any sizes); every
+    MPI_Wait completes the oldest active request of its key (posting order per key; waits of different keys interleave
+    freely), Waitall names every active request, blocking calls and collectives anywhere, no MPI_Test (`FifoProg`).
+    For every such program, of any length, the replayer reading the printed lines does not abort and issues the same
+    sequence of calls, each wait on the SAME request as online: `RequestStorage::pop` takes the oldest entry of the
+    key.  (With `back()/pop_back()` instead, the two-request program below already issues the waits the other way round.)
+    That posting order is necessary is `replay_same_key_counterexample`. -/
+theorem replay_issues_same_calls_fifo (me : Int) (n dflt : Nat) (hn : 2 ≤ n) (prog : List Call)
+    (hwf : FifoProg me ⟨0, [], []⟩ prog) (hp : ∀ a, Call.blocking a ∈ prog → a.wf n ∧ a.printable) :
+    ∃ iss r', replayRunText me n dflt ⟨0, []⟩ ((onlineRun me ⟨0, [], []⟩ prog).2.map printLine) = some (iss, r') ∧
+      sameL (onlineRun me ⟨0, [], []⟩ prog).1 iss := by
+  obtain ⟨iss, r', e, s⟩ := run_sim_fifo me prog ⟨0, [], []⟩ ⟨0, []⟩ invF_init hwf
+  refine ⟨iss, r', ?_, s⟩
+  simp only [replayRunText, parseLines_print n dflt hn _ (trace_ok me n prog _ hp)]
+  exact e
+
+/-- non-vacuity: rank 1 of 3 — two Irecvs from rank 0 with one tag (2 MB, then 500 kB), Wait(first), a message to rank 2,
+    Wait(second); then three Isends with one key interleaved with another key, waited for in posting order per key, and a
+    Waitall.  Not `WfProg`. -/
+def fifoDemo : List Call :=
+  [.irecv 0 0 2000000 2, .irecv 0 0 500000 2, .wait 0, .blocking (.send 2 1 1 1), .wait 1,
+   .isend 2 4 70000 1, .isend 0 4 10 1, .isend 2 4 1000 1, .isend 2 4 500000 1, .wait 2, .wait 3, .wait 4,
+   .blocking (.barrier), .waitall [5]]
+example : FifoProg 1 ⟨0, [], []⟩ fifoDemo := by
+  simp [fifoDemo, FifoProg, fifoStep, onlineStep, oldestOfKey, Action.isBlocking]
+example : ¬ WfProg 1 ⟨0, [], []⟩ fifoDemo := by
+  simp [fifoDemo, WfProg, wfStep, onlineStep, Action.isBlocking]
+example : (onlineRun 1 ⟨0, [], []⟩ fifoDemo).1 =
+    [.start (.irecv 0 0 2000000 2) 0, .start (.irecv 0 0 500000 2) 1, .wait 0, .call (.send 2 1 1 1), .wait 1,
+     .start (.isend 2 4 70000 1) 2, .start (.isend 0 4 10 1) 3, .start (.isend 2 4 1000 1) 4,
+     .start (.isend 2 4 500000 1) 5, .wait 2, .wait 3, .wait 4, .call .barrier, .waitall [5]] ∧
+    issuesOf (replayRunText 1 3 6 ⟨0, []⟩ ((onlineRun 1 ⟨0, [], []⟩ fifoDemo).2.map printLine)) =
+      some (onlineRun 1 ⟨0, [], []⟩ fifoDemo).1 := by decide
 
 /-- `WfProg` cannot drop "distinct keys": two Isends to the same peer with the same tag, waited in the other order —
     the replayer waits for the OTHER request (the TI record of a wait only carries (src, dst, tag)) -/
